@@ -31,7 +31,7 @@ Inductive event :=
 | EStart (p : list pelem)       (* a resolver was invoked for the field at this response path *)
 | EFulfil (p : list pelem).     (* the idle handler sent the result of this field's promise *)
 
-Definition slot := option (bytes * gval).     (* None = the zero OrderedMapItem {"", nil} *)
+Notation slot := (option (bytes * gval)) (only parsing).     (* None = the zero OrderedMapItem {"", nil} *)
 
 Record st := {
   s_proms : list promise;          (* promises in creation order; p_id = position *)
@@ -177,27 +177,29 @@ Section Exec.
     (GNil, heap_set m i key v s).
 
   (** the loop of executeSelections over the grouped field set, forceSerial = false
-      (executor.go:240-288); [ef] is executeField *)
+      (executor.go:245-286); [ef] is executeField, [m] the result map, [i] the slot index *)
+  Definition sel_loop (ef : fplan -> rpath -> st -> fut * st) (m : nat) (p : rpath) :=
+    fix sel_loop (l : selset) (i : nat) (futures : list fut) (s : st) {struct l}
+    : option err * list fut * st :=
+    match l with
+    | [] => (None, futures, s)
+    | (key, fp) :: tl =>
+        let ip := PKey key :: p in
+        let '(f, s1) := ef fp ip s in
+        let '(f1, s2) := catch_if_nullable (match fp with FP _ nn _ => nn end) f s1 in
+        match f1 with
+        | Ready (RErr e) => (Some e, futures, s2)            (* wait on a ready future; return Err *)
+        | Ready (ROk v) => sel_loop tl (S i) futures (heap_set m i key v s2)
+        | Pending _ =>
+            let '(f2, s3) := MapOk f1 (set_slot m i key) s2 in
+            sel_loop tl (S i) (futures ++ [f2]) s3
+        end
+    end.
+
   Definition sel_body (ef : fplan -> rpath -> st -> fut * st) (fields : selset) (p : rpath) (s : st)
     : fut * st :=
     let '(m, s0) := alloc_map (length fields) s in                    (* NewOrderedMapWithLength *)
-    let '(early, futures, s1) :=
-      (fix sel_loop (l : selset) (i : nat) (futures : list fut) (s : st) {struct l}
-         : option err * list fut * st :=
-         match l with
-         | [] => (None, futures, s)
-         | (key, fp) :: tl =>
-             let ip := PKey key :: p in
-             let '(f, s1) := ef fp ip s in
-             let '(f1, s2) := catch_if_nullable (match fp with FP _ nn _ => nn end) f s1 in
-             match f1 with
-             | Ready (RErr e) => (Some e, futures, s2)            (* wait on a ready future; return Err *)
-             | Ready (ROk v) => sel_loop tl (S i) futures (heap_set m i key v s2)
-             | Pending _ =>
-                 let '(f2, s3) := MapOk f1 (set_slot m i key) s2 in
-                 sel_loop tl (S i) (futures ++ [f2]) s3
-             end
-         end) fields 0 [] s0 in
+    let '(early, futures, s1) := sel_loop ef m p fields 0 [] s0 in
     match early with
     | Some e => (Err e, s1)
     | None => (MapOkValue (After futures) (GMap m), s1)
@@ -205,18 +207,20 @@ Section Exec.
 
   (** the list branch of completeValue (executor.go:386-408); [cv] is completeValue at the item
       type (non-null wrapper included) *)
+  Definition items_loop (cv : vplan -> rpath -> st -> fut * st) (inn : bool) (p : rpath) :=
+    fix items_loop (l : list vplan) (i : nat) (s : st) {struct l} : list fut * st :=
+    match l with
+    | [] => ([], s)
+    | x :: tl =>
+        let '(f, s1) := cv x (PIdx i :: p) s in
+        let '(f1, s2) := catch_if_nullable inn f s1 in
+        let '(fs, s3) := items_loop tl (S i) s2 in
+        (f1 :: fs, s3)
+    end.
+
   Definition list_body (cv : vplan -> rpath -> st -> fut * st) (inn : bool) (items : list vplan)
              (p : rpath) (s : st) : fut * st :=
-    let '(fs, s1) :=
-      (fix items_loop (l : list vplan) (i : nat) (s : st) {struct l} : list fut * st :=
-         match l with
-         | [] => ([], s)
-         | x :: tl =>
-             let '(f, s1) := cv x (PIdx i :: p) s in
-             let '(f1, s2) := catch_if_nullable inn f s1 in
-             let '(fs, s3) := items_loop tl (S i) s2 in
-             (f1 :: fs, s3)
-         end) items 0 s in
+    let '(fs, s1) := items_loop cv inn p items 0 s in
     (MapOkToAny (Join fs), s1).
 
   (** [complete_inner] = completeValue below the non-null wrapper; [exec_field] = executeField *)
@@ -253,6 +257,18 @@ Section Exec.
                     | RErr _ => (Err (err_at p KResolve), s)
                     end) s2
         end
+    end.
+
+  (** the continuation the promise adapter hands to Then (executor.go:346-351), as [exec_field]
+      builds it *)
+  Definition field_k (nn : bool) (res : option vplan) (p : rpath) (r : result) (s : st) : fut * st :=
+    match r with
+    | ROk _ =>
+        match res with
+        | Some v => nn_wrap nn p (complete_inner v p s)
+        | None => (Ok GNil, s)
+        end
+    | RErr _ => (Err (err_at p KResolve), s)
     end.
 
   (** completeValue(fieldType, …) with the non-null wrapper *)
